@@ -9,6 +9,7 @@
 #include "ref_format.h"
 #include "gen_text.h"
 #include <sstream>
+#include <iomanip>
 
 using vrt::Rng;
 using vrt::sfmt;
@@ -103,12 +104,13 @@ static void sink_case(int shape, const Values &v, const S &fmt)
     call_shape(shape, v, "", &args, [](const char *, auto &&...) {});
     std::string ctx = sfmt("shape=%d fmt=\"%s\" args: %s", shape, vrt::json_escape(fmt).c_str(), describe_values(args).c_str());
     // reference output: ST::format itself (C11 checks it against the specification)
+    // (when the bytes are not valid UTF-8 - a pad byte >= 0x80, say - the validating ST::format throws, but
+    // ST::format(assume_valid, ...) still yields them, and the sinks that do not validate must emit exactly those bytes)
     S want, raw;
+    bool bytes_only = false;
     vrt::evals(2);
     try {
         call_shape(shape, v, f.data(), nullptr, [&](const char *fs, auto &&...a) {
-            ST::string r = ST::format(fs, a...);
-            want.assign(r.c_str(), r.size());
             ST::string q = ST::format(ST::assume_valid, fs, a...);
             raw.assign(q.c_str(), q.size());
         });
@@ -116,7 +118,21 @@ static void sink_case(int shape, const Values &v, const S &fmt)
         vrt::count("format.failed");        // compared only when ST::format succeeds
         return;
     }
-    if (raw != want) vrt::violation("C17:format(assume_valid)-differs-from-format", ctx);
+    try {
+        call_shape(shape, v, f.data(), nullptr, [&](const char *fs, auto &&...a) {
+            ST::string r = ST::format(fs, a...);
+            want.assign(r.c_str(), r.size());
+        });
+        if (raw != want) vrt::violation("C17:format(assume_valid)-differs-from-format", ctx);
+    } catch (const ST::unicode_error &) {
+        if (ref::utf8_ok(raw)) vrt::violation("C17:format:unicode_error-on-valid-output", ctx);
+        bytes_only = true;
+        want = raw;
+        vrt::count("format.bytes_not_valid_utf8");
+    } catch (const std::exception &e) {
+        vrt::violation(sfmt("C17:format:threw-after-assume_valid-succeeded:%s", vrt::demangle(typeid(e).name()).c_str()), ctx);
+        return;
+    }
     // FILE* sink
     {
         char *mem = nullptr;
@@ -174,8 +190,8 @@ static void sink_case(int shape, const Values &v, const S &fmt)
             vrt::violation(sfmt("C17:writef<char>:threw:%s", vrt::demangle(typeid(e).name()).c_str()), ctx + " " + e.what());
         }
     }
-    // the _stfmt literal formatter
-    {
+    // the _stfmt literal formatter (validates like ST::format)
+    if (!bytes_only) {
         vrt::evals();
         try {
             S got;
@@ -200,9 +216,11 @@ static void sink_case(int shape, const Values &v, const S &fmt)
             vrt::violation(sfmt("C17:format_latin_1:threw:%s", vrt::demangle(typeid(e).name()).c_str()), ctx + " " + e.what());
         }
     }
-    wide_sink<wchar_t>("wchar_t", shape, v, f.data(), want, ctx);
-    wide_sink<char16_t>("char16_t", shape, v, f.data(), want, ctx);
-    wide_sink<char32_t>("char32_t", shape, v, f.data(), want, ctx);
+    if (!bytes_only) {
+        wide_sink<wchar_t>("wchar_t", shape, v, f.data(), want, ctx);
+        wide_sink<char16_t>("char16_t", shape, v, f.data(), want, ctx);
+        wide_sink<char32_t>("char32_t", shape, v, f.data(), want, ctx);
+    }
     vrt::count("format.compared");
     if (!ascii(want)) vrt::count("format.non_ascii_output");
     if (want.size() > 300) vrt::count("format.long_output");
@@ -236,12 +254,28 @@ static void extract_case(const char *name, const std::vector<unsigned long> &cps
         else src += static_cast<CT>(c);
     }
     std::basic_istringstream<CT> a(src), b(src);
+    // the same extraction state on both streams: a field width limits a token, noskipws keeps leading blanks from being skipped
+    const uint64_t hstate = vrt::fnv1a(src.data(), src.size() * sizeof(CT), 0x77);
+    const int width_for_token[6] = {0, hstate % 5 == 0 ? 3 : 0, hstate % 7 == 0 ? 1 : 0, 0, hstate % 3 == 0 ? 2 : 0, 0};
+    if (hstate % 11 == 0) { a >> std::noskipws; b >> std::noskipws; vrt::count("extract.noskipws_streams"); }
     for (int tok = 0; tok < 6; ++tok) {
         std::basic_string<CT> want;
         ST::string got("previous");
+        if (width_for_token[tok]) { a.width(width_for_token[tok]); b.width(width_for_token[tok]); vrt::count("extract.tokens_with_width"); }
         a >> want;
         vrt::evals();
-        b >> got;
+        bool rejected = false;
+        try { b >> got; } catch (const ST::unicode_error &) { rejected = true; }
+        if (rejected) {
+            // "subject to the default validation": a width can cut a narrow token inside a multi-byte character
+            S cut;
+            if constexpr (sizeof(CT) == 1) cut.assign(want.begin(), want.end());
+            if (sizeof(CT) != 1 || ref::utf8_ok(cut)) vrt::violation(sfmt("C17:operator>>:%s:unexpected-unicode_error", name), sfmt("source=%s token %d", showw(src).c_str(), tok));
+            vrt::count("extract.tokens_rejected_by_validation");
+            if (a.fail()) break;
+            continue;
+        }
+        if (a.width() != b.width()) vrt::violation(sfmt("C17:operator>>:%s:width-not-consumed-like-std", name), sfmt("source=%s token %d", showw(src).c_str(), tok));
         S want8;
         if constexpr (sizeof(CT) == 1) want8.assign(want.begin(), want.end());
         else for (CT c : want) ref::enc_utf8(want8, static_cast<unsigned long>(c));
@@ -260,6 +294,7 @@ static void body()
     vrt::require("format.non_ascii_output", 1000);
     vrt::require("format.long_output", 20);
     vrt::require("insert.cases", 1000);
+    vrt::require("format.bytes_not_valid_utf8", 200);
     vrt::require("printf.stdout_captured", 5000);
     vrt::require("insert.with_U+0000", 100);
     vrt::require("writef.stream_with_pending_state", 1000);
@@ -276,7 +311,9 @@ static void body()
         size_t nf = args.empty() ? 0 : r.below(4), seq = 0;
         for (size_t k = 0; k < nf; ++k) {
             Field f = random_field(r, false);
-            // padding on most fields (the sinks' append_char loops); ASCII pad characters
+            // pad bytes >= 0x80 now and then: the output is then compared as bytes with ST::format(assume_valid, ...)
+            if (f.padkind == 1 && r.chance(1, 12)) { static const char hi[] = {'\x80', '\xBF', '\xE9', '\xFF', '\xC3'}; f.padc = r.pick(hi); }
+            // padding on most fields (the sinks' append_char loops)
             if (f.cls != 'c' && r.chance(3, 4) && !f.width) f.width = static_cast<int>(1 + r.below(r.chance(1, 20) ? 600 : 30));
             if (r.chance(1, 4) && !args.empty()) f.argref = static_cast<int>(1 + r.below(args.size()));
             // a precision cut inside a multi-byte character would make one chunk invalid by itself
